@@ -86,7 +86,9 @@ package config
 
 // Data invariant of the policy tree (from the statement): the policies stored on a pattern are those DECLARED for that
 // pattern, and no two patterns share a policy map.
-//@ ghost func polInv() bool = forall(p, string, pdecl[p] ==> p != "" && pval[p] != nil && *pval[p] != nil && forall(m, urltree.Method, in(m, *pval[p]) ==> (*pval[p])[m].URL == p)) && forall(p, string, forall(q, string, pdecl[p] && pdecl[q] && p != q ==> *pval[p] != *pval[q]))
+//@ ghost func polValues() bool = forall(p, string, pdecl[p] ==> p != "" && pval[p] != nil && allocated(pval[p]) && *pval[p] != nil && allocated(*pval[p]))
+//@ ghost func polOwn() bool = forall(p, string, forall(m, urltree.Method, pdecl[p] && in(m, *pval[p]) ==> (*pval[p])[m].URL == p))
+//@ ghost func polDistinct() bool = forall(p, string, forall(q, string, pdecl[p] && pdecl[q] && p != q ==> *pval[p] != *pval[q]))
 
 //@ extern checkForDuplicates
 //@   modifies nothing
@@ -95,5 +97,17 @@ package config
 //@   prop C13
 //@   requires forall(j, 0, len(endpoints), endpoints[j].URL != "")
 //@   modifies pdecl, pval, heap
-//@   loop 1 invariant[policies-on-their-own-pattern] polInv()
-//@   ensures[policies-on-their-own-pattern] result1 == nil ==> polInv()
+//@   allocates EndpointTree, cell, map
+//@   loop 1 invariant[stored-values] polValues()
+//@   loop 1 invariant[policies-on-their-own-pattern] polOwn()
+//@   loop 1 invariant[no-shared-policy-map] polDistinct()
+//@   ensures[policies-on-their-own-pattern] result1 == nil ==> polValues() && polOwn() && polDistinct()
+
+//@ func isDeclaredOn
+//@   prop C13
+//@   modifies nothing
+//@   loop 1 modifies nothing
+//@   loop 1 invariant[all-so-far] forall(m, urltree.Method, in(m, seen1) ==> policies[m].URL == url)
+//@   loop 1 invariant[some-so-far] declaredOn ==> exists(m, urltree.Method, in(m, policies) && policies[m].URL == url)
+//@   ensures[all-entries] result ==> forall(m, urltree.Method, in(m, policies) ==> policies[m].URL == url)
+//@   ensures[some-entry] result ==> exists(m, urltree.Method, in(m, policies) && policies[m].URL == url)
